@@ -245,6 +245,30 @@ static void handle(size_t nw, char **w) {
 		}
 		free(idb.p); free(ctx);
 	}
+	else if (!strcmp(w[0], "sstreamf") && nw == 6) {
+		/* sstreamf d id idlen ent0 rounds ; round = chunks@entropy : the round's script is installed before
+		 * its finish; a failing finish prints ERR and the run goes on (reset, next message) */
+		buf_t idb; char *id = id_buf(w[2], &idb); size_t idlen = strtoul(w[3], NULL, 10);
+		SM2_SIGN_CTX *ctx = malloc(sizeof(*ctx)); char *save = NULL, *rd; int first = 1;
+		if (key_from_d(&key, w[1]) != 1) { printf("ERR key"); free(idb.p); free(ctx); return; }
+		install_entropy(w[4]);
+		if (sm2_sign_init(ctx, &key, id, idlen) != 1) { printf("ERR"); drop_entropy(); free(idb.p); free(ctx); return; }
+		drop_entropy();
+		for (rd = strtok_r(w[5], ";", &save); rd; rd = strtok_r(NULL, ";", &save)) {
+			char *at = strchr(rd, '@'); size_t k, i, siglen = 0, j; int ok = 1; uint8_t *sig = malloc(SM2_MAX_SIGNATURE_SIZE);
+			*at = 0;
+			k = split_chunks(rd, ch, MAXC);
+			for (i = 0; i < k; i++) if (sm2_sign_update(ctx, ch[i].p, ch[i].n) != 1) ok = 0;
+			install_entropy(at + 1);
+			if (ok && sm2_sign_finish(ctx, sig, &siglen) != 1) ok = 0;
+			drop_entropy();
+			if (!first) putchar(','); first = 0;
+			if (ok) for (j = 0; j < siglen; j++) printf("%02x", sig[j]); else printf("ERR");
+			sm2_sign_reset(ctx);
+			free(sig); free_chunks(ch, k);
+		}
+		free(idb.p); free(ctx);
+	}
 	else printf("ERR unknown-op");
 }
 
